@@ -63,6 +63,7 @@ class Sidecar:
         self.params = {}   # fn -> contract-side parameter names (positional binding to the real signature)
         self.woven = {}    # fn -> clause text as woven (after positional renaming)
         self.skipped = []  # loop-relative hints whose loop no longer exists
+        self.unannotated = {}  # fn -> number of closures without a contract (Verus knows nothing about their results)
         for path in paths:
             self._load(Path(path))
 
@@ -369,7 +370,8 @@ def weave_fn(src: Source, fn_item, key, side: Sidecar, used: set):
         if closures is None:
             closures = closures_in(src, body_open + 1, body_close)
         if n < 1 or n > len(closures):
-            raise Undecided(f"lost anchor: closure {n} of {key} (function has {len(closures)} closures)")
+            side.skipped.append(f"closure contract {n} of {key} (function has {len(closures)} closures)")
+            continue
         params_end, b0, b1, is_block = closures[n - 1]
         spec = txt_of(lines)
         if is_block:
@@ -377,6 +379,13 @@ def weave_fn(src: Source, fn_item, key, side: Sidecar, used: set):
         else:
             ins.append((params_end, W(" " + spec + " {")))
             ins.append((b1, W("}")))
+    try:
+        n_clos = len(closures_in(src, body_open + 1, body_close)) if closures is None else len(closures)
+    except Exception:
+        n_clos = 0
+    n_spec = sum(1 for (f, n) in side.closure if f == key and 1 <= n <= n_clos)
+    if n_clos > n_spec:
+        side.unannotated[key] = n_clos - n_spec
     for (f, where, n), lines in side.proof.items():
         if f != key: continue
         used.add(("proof", f, where, n))
@@ -729,12 +738,19 @@ def run_verus_unit(unit, tier, prop):
         seen.add(key)
         failed = fail_by_fn.get(key, [])
         ok = fb.get("success", True) and not failed
+        status = "verified" if ok else "failed"
+        reason = ""
+        if not ok and side.unannotated.get(key):
+            # Verus knows nothing about the result of a closure without a contract: a failed proof of such a function is a
+            # tool limit (undecided), not a refutation. (The driver then tries the unit's bounded stand-in, if any.)
+            status, reason = "undecided", (f"proof failed, but the function contains {side.unannotated[key]} closure(s) without a "
+                                           "contract whose result Verus cannot see: undecided, not a violation")
         results.append({
             "unit": unit["name"], "tool": "verus", "backend": "Z3 via Verus 0.2026.09.13",
             "harness": None, "function": key, "location": declared.get(key),
             "clause": clause_of(side, key), "kind": "complete",
-            "status": "verified" if ok else "failed",
-            "reason": "", "checks_total": 1, "checks_passed": 1 if ok else 0,
+            "status": status,
+            "reason": reason, "checks_total": 1, "checks_passed": 1 if ok else 0,
             "failed_checks": failed, "time_s": fb.get("time", 0) / 1000.0, "solver_s": fb.get("time", 0) / 1000.0,
             "rlimit": fb.get("rlimit"), "is_real_code": key in declared,
         })
@@ -756,10 +772,10 @@ def run_verus_unit(unit, tier, prop):
         raise Undecided(f"vacuity guard: functions under contract were not verified by verus: {sorted(missing)}")
     if verified_n + errors_n == 0:
         raise Undecided("vacuity guard: verus reported zero obligations")
-    if errors_n and not any(r["status"] == "failed" for r in results):
+    if errors_n and not any(r["status"] in ("failed", "undecided") for r in results):
         raise Undecided(f"verus reported {errors_n} errors that could not be attributed:\n" + err[-2000:])
     # vacuity guard 2: `ensures false` pass
-    if not any(r["status"] == "failed" for r in results) and not unit.get("skip_false_pass"):
+    if not any(r["status"] in ("failed", "undecided") for r in results) and not unit.get("skip_false_pass"):
         vacuity_pass(unit, text, side, fnlocs, rlimit)
     for r in results:
         r["wall_s"] = wall
